@@ -177,10 +177,10 @@ class ImportedName(Name, Resolvable):
 
     def resolve(self, ctx):
         # type: (EvalCtx) -> Object | None
-        try:
+        # what the name refers to is looked up once per evaluation context (one
+        # request): the module it comes from may have been edited since
+        if getattr(self, '_ref_ctx', None) is ctx:
             return self._ref
-        except AttributeError:
-            pass
 
         value = None
         filename = self.scope.top.source.filename
@@ -219,6 +219,7 @@ class ImportedName(Name, Resolvable):
                 value = AdditionalNameWrapper(value, names)  # type: ignore[assignment]
 
         self._ref = value
+        self._ref_ctx = ctx
         return value
 
     def __repr__(self):  # type: () -> str
